@@ -404,6 +404,37 @@ impl Context {
     }
 }
 
+/// Verification hooks. Compiled only with `--cfg rusty_basic_verif`.
+#[cfg(rusty_basic_verif)]
+impl Context {
+    /// `(memory_block_index, is_collecting_arguments)` of every state, bottom first.
+    pub fn verif_states(&self) -> Vec<(usize, bool)> {
+        self.states
+            .iter()
+            .map(|s| (s.memory_block_index, s.arguments.is_some()))
+            .collect()
+    }
+
+    /// `(variables, ref_count, is_static)` of every memory block.
+    pub fn verif_memory_blocks(&self) -> Vec<(Vec<(String, Variant)>, usize, bool)> {
+        self.memory_blocks
+            .iter()
+            .map(|b| (b.variables.verif_entries(), b.ref_count, b.is_static))
+            .collect()
+    }
+
+    /// The static memory block index of every STATIC sub-program seen so far, sorted by name.
+    pub fn verif_static_map(&self) -> Vec<(String, usize)> {
+        let mut v: Vec<(String, usize)> = self
+            .static_memory_blocks
+            .iter()
+            .map(|(k, v)| (format!("{:?}", k), *v))
+            .collect();
+        v.sort();
+        v
+    }
+}
+
 impl std::ops::Index<usize> for Context {
     type Output = Variant;
 
